@@ -7,7 +7,7 @@ from ..gen import J
 
 PROP = "C03"
 HOSTILE = ('scale', 'special')
-MONITORS = ("WF",)
+MONITORS = ("WF", "FORM")
 ANCHORS = [("measure.py", "GaussianMeasure.integrate"), ("measure.py", "GaussianMeasure._get_default"),
            ("measure.py", "GaussianMeasure.integrate_cubic_outer"),
            ("measure.py", "GaussianMeasure.integrate_xbxx")] + [
